@@ -22,7 +22,7 @@ pub fn unify_universe() -> TermCfg {
         vars: vec!["$A", "$B", "$C", "$D", "$E", "$F"],
         atoms: vec!["a", "b", "c"],
         ints: vec![0, 1, -1],
-        floats: vec![0.5, 1.0, -0.0, 0.0],
+        floats: vec![0.5, 1.0, -0.0, 0.0, 0.3, 0.30000000000000004],
         anon: true, lists: true, cmps: true, max_depth: 3,
     }
 }
